@@ -50,6 +50,11 @@ M = [
  ('localize-t0-row', 'sampling_method.py', "            yield (t0_local[k]+Tk==t0_local[k+1],{})", "            yield (t0_local[k]+Tk==t0_local[k+1],{}) if k>0 else (t0_local[k]+2*Tk==t0_local[k+1],{})", ['C06']),
  ('uniform-constrain', 'sampling_method.py', "        return (Tnext==T,{})", "        return (Tnext>=T,{})", ['C06']),
  ('function-grid-call', 'sampling_method.py', "    def __call__(self, t0, T, N):\n        n = self.normalized(N)\n        return t0 + hcat(n)*T\n\n    def normalized(self, N):\n        return self.normalized_fun(N)", "    def __call__(self, t0, T, N):\n        n = self.normalized(N)\n        return t0 + hcat(n[:-1]+[n[-1]*1.0001])*T\n\n    def normalized(self, N):\n        return self.normalized_fun(N)", ['C06']),
+ # --- C11
+ ('free-T-nonneg', 'direct_method.py', "                stage.subject_to(stage._T>=0)\n", "", ['C11']),
+ ('free-T-guess', 'direct_method.py', "                stage.set_initial(stage._T, init,priority=True)\n                return stage._T", "                stage.set_initial(stage._T, init+1,priority=True)\n                return stage._T", ['C11']),
+ ('free-t0-as-zero', 'sampling_method.py', "        self.t0 = self.eval(stage, stage._t0)\n", "        self.t0 = self.eval(stage, stage._t0) if ca.MX(self.eval(stage, stage._t0)).is_constant() else 0*self.eval(stage, stage._t0)\n", ['C11']),
+ ('tf-placeholder', 'stage.py', "        self._tf = self.T + self.t0", "        self._tf = self.T + 2*self.t0", ['C11', 'C04', 'C05']),
 ]
 
 def main():
